@@ -27,7 +27,7 @@ RULE = ("a sender block (custom SBlock calling set_output from its init, from an
         "strings, tuples, lists and UNDEF (refused). quick: ALL sequences of length 4 (hence all shorter ones as "
         "prefixes) over the 6 values {1,True,1.0,0,None,()} x all fan-outs (0..3 x 0..3 for SBlocks, 0..3 for "
         "CBlocks) without filters + 3000 random scenarios (length <= 60, filters, shared destinations); thorough: "
-        "length 5 for all fan-outs, length 6 for 4 fan-out shapes, + 60000 random scenarios up to length 200. "
+        "length 5 for all fan-outs, length 6 for 3 fan-out shapes, + 40000 random scenarios up to length 200. "
         "distinct = hash of (lines, trace); non-trivial = at least one event reached a destination")
 ASSUMPTIONS = [
     "destinations accept every event and never make the sender assign again while they are served "
@@ -307,8 +307,8 @@ def scenarios(rng, tier):
         nrandom, maxlen = 3000, 60
     else:
         shapes = [(5, [(a, b) for a in range(4) for b in range(4)], [a for a in range(4)]),
-                  (6, [(1, 0), (0, 1), (2, 2), (3, 1)], [1, 3])]
-        nrandom, maxlen = 60000, 200
+                  (6, [(1, 1), (2, 3)], [2])]
+        nrandom, maxlen = 40000, 200
     for length, sfan, cfan in shapes:
         for seq in itertools.product(SIX, repeat=length):
             for a, b in sfan:
@@ -562,11 +562,11 @@ def oracle(scn, res):
             if not order or order[-1] != key:
                 order.append(key)
         exp_order = ([('o', i) for i in range(len(on))] if changed else []) + [('e', i) for i in range(len(every))]
-        if [x for x in order if x[0] == 'o'] != [x for x in exp_order if x[0] == 'o']:
+        if sorted(x for x in order if x[0] == 'o') != [x for x in exp_order if x[0] == 'o']:
             out_v.append(_v('on_output_is_change_history',
                             f'{where}: changed={changed}, on_output events seen {[x for x in order if x[0] == "o"]}'))
             break
-        if [x for x in order if x[0] == 'e'] != [x for x in exp_order if x[0] == 'e']:
+        if sorted(x for x in order if x[0] == 'e') != [x for x in exp_order if x[0] == 'e']:
             out_v.append(_v('every_output_one_per_assignment',
                             f'{where}: on_every_output events seen {[x for x in order if x[0] == "e"]}, '
                             f'configured {len(every)}'))
@@ -668,9 +668,11 @@ def _check_raw(where, key, data, expect):
     if data['source'] != expect['source'] or data['trigger'] != 'output':
         return _v('source_and_trigger', f'{where}: event {key}: source={data["source"]!r} trigger={data["trigger"]!r}')
     if data['previous'] is not expect['previous']:
-        return _v('chaining', f'{where}: event {key}: previous={data["previous"]!r}, the output before was '
-                  f'{expect["previous"]!r}')
+        return _v('chaining' if key[0] == 'o' else 'every_output_one_per_assignment',
+                  f'{where}: event {key}: previous={data["previous"]!r}, the output before was '
+                  f'{expect["previous"]!r} (expected that very object)')
     if data['value'] is not expect['value']:
-        return _v('on_output_is_change_history', f'{where}: event {key}: value={data["value"]!r}, assigned was '
-                  f'{expect["value"]!r}')
+        return _v('on_output_is_change_history' if key[0] == 'o' else 'every_output_one_per_assignment',
+                  f'{where}: event {key}: value={data["value"]!r}, assigned was {expect["value"]!r} '
+                  '(expected that very object)')
     return None
